@@ -426,6 +426,7 @@ func translatePipeline(pkgs map[string]*pkgInfo) string {
 		}
 	}
 	b.WriteString(translateClosure(p))
+	b.WriteString(translateState(p))
 	b.WriteString("end Cors.Gen.GoSrc\n")
 	return b.String()
 }
@@ -473,6 +474,129 @@ func translateClosure(p *pkgInfo) string {
 	fmt.Fprintf(&b, "def serveClosure (icfg : ICfg) (debug : Bool) (r : Req) (resHdrs : HdrMap) : Resp :=\n  let status : Option Nat := none\n  let next := false\n  %s\n\n", body)
 	if len(t.bad) > 0 {
 		fmt.Fprintf(&b, "/- UNSUPPORTED in the closure of Wrap: %s -/\n\n", strings.ReplaceAll(strings.Join(t.bad, " ;; "), "-/", "- /"))
+	}
+	return b.String()
+}
+
+// translateState: the two methods that write the middleware's state, `Reconfigure` and `SetDebug`, as functions on the
+// model's `Mw` (configuration pointer = `Option ICfg`, debug flag).  Lock and unlock calls are skipped (the lock
+// programs are C07's regenerated facts); a bare block is inlined.  Supported besides: `icfg, err := newInternalConfig(cfg)`,
+// `if err != nil { return err }`, `m.icfg = e`, `m.debug = e`, `return nil`; `x != nil` is `.isSome` on pointers.
+func translateState(p *pkgInfo) string {
+	var b strings.Builder
+	for _, w := range []string{"Reconfigure", "SetDebug"} {
+		var fd *ast.FuncDecl
+		if p != nil {
+			for _, f := range p.files {
+				for _, d := range f.Decls {
+					if x, ok := d.(*ast.FuncDecl); ok && x.Name.Name == w && x.Recv != nil && x.Body != nil && exprText(x.Recv.List[0].Type) == "*Middleware" {
+						fd = x
+					}
+				}
+			}
+		}
+		lname := strings.ToLower(w[:1]) + w[1:]
+		if fd == nil {
+			fmt.Fprintf(&b, "/-- `%s` is missing from the source. -/\ndef %s : Unit := ()\n\n", w, lname)
+			continue
+		}
+		t := &tr{p: p}
+		hasErr := fd.Type.Results != nil && len(fd.Type.Results.List) == 1
+		var expr func(e ast.Expr) string
+		expr = func(e ast.Expr) string {
+			switch e := e.(type) {
+			case *ast.ParenExpr:
+				return "(" + expr(e.X) + ")"
+			case *ast.Ident:
+				return e.Name
+			case *ast.SelectorExpr:
+				if s := exprText(e); s == "m.icfg" || s == "m.debug" {
+					return s
+				}
+			case *ast.BinaryExpr:
+				if id, ok := e.Y.(*ast.Ident); ok && id.Name == "nil" && (e.Op == token.NEQ || e.Op == token.EQL) {
+					isSome := "(" + expr(e.X) + ").isSome"
+					if e.Op == token.EQL {
+						return "(!" + isSome + ")"
+					}
+					return isSome
+				}
+				if e.Op == token.LAND || e.Op == token.LOR {
+					return "(" + expr(e.X) + " " + e.Op.String() + " " + expr(e.Y) + ")"
+				}
+			case *ast.UnaryExpr:
+				if e.Op == token.NOT {
+					return "(!" + expr(e.X) + ")"
+				}
+			}
+			return t.unsupported(e)
+		}
+		fin := func(errv string) string {
+			if hasErr {
+				return "(" + errv + ", m)"
+			}
+			return "m"
+		}
+		var stmts func(list []ast.Stmt, ind string) string
+		stmts = func(list []ast.Stmt, ind string) string {
+			if len(list) == 0 {
+				if hasErr {
+					t.bad = append(t.bad, "<falls off the end>")
+					return `(GoRt.unsupported "<falls off the end>")`
+				}
+				return "m"
+			}
+			s, rest := list[0], list[1:]
+			switch s := s.(type) {
+			case *ast.BlockStmt:
+				return stmts(append(append([]ast.Stmt{}, s.List...), rest...), ind)
+			case *ast.ExprStmt:
+				switch exprText(s.X) {
+				case "m.mu.Lock()", "m.mu.Unlock()":
+					return stmts(rest, ind)
+				}
+			case *ast.ReturnStmt:
+				if hasErr && len(s.Results) == 1 {
+					switch exprText(s.Results[0]) {
+					case "nil":
+						return fin("none")
+					case "err":
+						return fin("err")
+					}
+				}
+				if !hasErr && len(s.Results) == 0 {
+					return "m"
+				}
+			case *ast.AssignStmt:
+				if s.Tok == token.DEFINE && len(s.Lhs) == 2 && len(s.Rhs) == 1 && exprText(s.Lhs[0]) == "icfg" && exprText(s.Lhs[1]) == "err" && exprText(s.Rhs[0]) == "newInternalConfig(cfg)" {
+					return "let r__ := GoRt.newInternalConfig ext cfg\n" + ind + "let icfg := r__.1\n" + ind + "let err := r__.2\n" + ind + stmts(rest, ind)
+				}
+				if s.Tok == token.ASSIGN && len(s.Lhs) == 1 && len(s.Rhs) == 1 {
+					switch exprText(s.Lhs[0]) {
+					case "m.icfg":
+						return "let m : Mw := { m with icfg := " + expr(s.Rhs[0]) + " }\n" + ind + stmts(rest, ind)
+					case "m.debug":
+						return "let m : Mw := { m with debug := " + expr(s.Rhs[0]) + " }\n" + ind + stmts(rest, ind)
+					}
+				}
+			case *ast.IfStmt:
+				if s.Init == nil && s.Else == nil {
+					in := ind + "  "
+					return "if " + expr(s.Cond) + " then\n" + in + stmts(append(append([]ast.Stmt{}, s.Body.List...), rest...), in) + "\n" + ind + "else\n" + in + stmts(rest, in)
+				}
+			}
+			return t.unsupported(s)
+		}
+		body := stmts(fd.Body.List, "  ")
+		fmt.Fprintf(&b, "/-- `(*Middleware).%s`, translated from: %s -/\n", w, strings.ReplaceAll(codeText(fd.Body), "-/", "- /"))
+		if w == "Reconfigure" {
+			fmt.Fprintf(&b, "def %s (ext : Ext) (m : Mw) (cfg : Option Config) : Option Err × Mw :=\n  %s\n\n", lname, body)
+		} else {
+			fmt.Fprintf(&b, "def %s (m : Mw) (b : Bool) : Mw :=\n  %s\n\n", lname, body)
+		}
+		if len(t.bad) > 0 {
+			fmt.Fprintf(&b, "/- UNSUPPORTED in %s: %s -/\n\n", w, strings.ReplaceAll(strings.Join(t.bad, " ;; "), "-/", "- /"))
+		}
 	}
 	return b.String()
 }
